@@ -55,6 +55,9 @@ fn drive(opts: &Opts, level: &str, label: &str, workloads: u64, jobs: usize, rul
     if !mism.is_empty() {
         harness_error(&format!("determinism self-test failed: {} of {} re-executed workloads differ (sub-seeds {:?})", mism.len(), again.digests.len(), &mism[..mism.len().min(3)]));
     }
+    if opts.property == "C08" && total.distinct.is_empty() {
+        harness_error("no run reported a schedule: the scheduler plugin was not active (was rg built with --cfg ripgrep_verif?)");
+    }
     rep.evaluations = total.evals + again.evals;
     rep.distinct = total.distinct;
     rep.faults = total.faults;
